@@ -25,6 +25,9 @@ type World struct {
 	FieldFact      func(e *FuncEnc, structT types.Type, field int, base, val string) string
 	MapValueFact   func(e *FuncEnc, mt *types.Map, val, has string) string
 	ElemFact       func(e *FuncEnc, elem types.Type, val string) string
+	InvokeSummary  func(e *FuncEnc, cc *ssa.CallCommon) bool
+	GlobalFact     func(e *FuncEnc, g *ssa.Global, val string) string
+	DynResultFact  func(e *FuncEnc, name string, results []string, rts []types.Type) string
 	DynamicPolicy  func(e *FuncEnc, in ssa.Instruction, name string) CallKind
 	ExternalPolicy func(full string) CallKind
 	Library        map[string]LibModel
